@@ -12,6 +12,12 @@ static PEAK: AtomicUsize = AtomicUsize::new(0);
 static LARGEST: AtomicUsize = AtomicUsize::new(0);
 static COUNT: AtomicUsize = AtomicUsize::new(0);
 static BUDGET: AtomicUsize = AtomicUsize::new(usize::MAX);
+/// The budget as configured (BUDGET itself is lifted after a refusal, see `refuse`).
+static CONFIGURED: AtomicUsize = AtomicUsize::new(usize::MAX);
+/// Size of the first request refused in the current window (0: none). A refusal does not
+/// always abort: fallible allocations (`try_reserve`, as in `Read::read_to_end`) turn it into
+/// an ordinary error, so the executor asks after every operation.
+static REFUSED: AtomicUsize = AtomicUsize::new(0);
 /// Live bytes that belong to the harness (corpus cache, generator tables, the prepared storage
 /// of the current run). The budget applies to what the run allocates on top of this, so that a
 /// run behaves the same inside a long campaign worker and in an isolated replay process.
@@ -19,6 +25,10 @@ static BASE: AtomicUsize = AtomicUsize::new(0);
 
 pub fn set_budget(bytes: usize) {
     BUDGET.store(bytes, Relaxed);
+    CONFIGURED.store(bytes, Relaxed);
+}
+pub fn refused() -> usize {
+    REFUSED.load(Relaxed)
 }
 pub fn live() -> usize {
     LIVE.load(Relaxed)
@@ -34,6 +44,9 @@ pub fn count() -> usize {
 }
 /// Start a new measurement window: base := live, peak := live, largest := 0.
 pub fn reset_window() {
+    // a refusal survived by the previous run lifted the budget: every run starts with it in force
+    BUDGET.store(CONFIGURED.load(Relaxed), Relaxed);
+    REFUSED.store(0, Relaxed);
     BASE.store(LIVE.load(Relaxed), Relaxed);
     PEAK.store(LIVE.load(Relaxed), Relaxed);
     LARGEST.store(0, Relaxed);
@@ -71,6 +84,11 @@ fn refuse(size: usize) {
     }
     // The process is about to abort (handle_alloc_error): lift the budget so that the abort
     // path can allocate what it needs to print the backtrace that names the allocation site.
+    // (If the caller survives the refusal the executor reports it; the budget is back in force
+    // at the next `reset_window`.)
+    if REFUSED.load(Relaxed) == 0 {
+        REFUSED.store(size.max(1), Relaxed);
+    }
     BUDGET.store(usize::MAX, Relaxed);
 }
 
